@@ -15,22 +15,44 @@ pub struct Exec {
     pub store: AnnotationStore,
 }
 
+thread_local! { pub static LAST_ERR: std::cell::RefCell<String> = std::cell::RefCell::new(String::new()); }
+/// variant name of the error the last failed operation returned
+pub fn last_err() -> String { LAST_ERR.with(|l| l.borrow().clone()) }
+
 fn ok_or_err<T>(r: Result<Result<T, StamError>, String>, f: impl Fn(T) -> String) -> String {
     match r {
         Ok(Ok(v)) => format!("ok {}", f(v)),
-        Ok(Err(_)) => "err".into(),
+        Ok(Err(e)) => {
+            let d = format!("{:?}", e);
+            // variant name; for the wrappers BuildError(inner, ..) / StoreError(inner, ..) the innermost variant
+            const VARIANTS: &[&str] = &["HandleError", "IdNotFoundError", "NotFoundError", "VariableNotFoundError", "NoIdError", "Unbound", "AlreadyBound", "AlreadyExists", "DuplicateIdError", "BuildError", "StoreError", "IOError", "JsonError", "CsvError", "RegexError", "QuerySyntaxError", "SerializationError", "DeserializationError", "WrongSelectorType", "WrongSelectorTarget", "CursorOutOfBounds", "InvalidOffset", "InvalidCursor", "NoTarget", "NoText", "InUse", "IncompleteError", "ValueError", "UndefinedVariable", "TransposeError", "ValidationError", "OtherError"];
+            let mut names: Vec<&str> = vec![];
+            let mut rest = d.as_str();
+            loop {
+                let id_len = rest.chars().take_while(|c| c.is_alphanumeric()).count();
+                let id = &rest[..id_len];
+                if VARIANTS.contains(&id) && rest[id_len..].starts_with('(') {
+                    names.push(id);
+                    rest = &rest[id_len + 1..];
+                    if id != "BuildError" && id != "StoreError" { break; }
+                } else { break; }
+            }
+            let cause = names.last().map(|x| x.to_string()).unwrap_or("?".into());
+            LAST_ERR.with(|l| *l.borrow_mut() = cause);
+            "err".into()
+        }
         Err(m) => format!("panic:{}", m.chars().take(70).collect::<String>()),
     }
 }
 
-/// values: n | b:0/1 | i:<int> | s:<str> | f:<quarters> (the float q/4) | d:<unix seconds> | l:<elem>|<elem>…
+/// values: n | b:0/1 | i:<int> | s:<str> | f:<quarters> (the float q/4) | d:<unix milliseconds> | l:<elem>|<elem>…
 pub fn parse_value(s: &str) -> DataValue {
     match s.split_once(':') {
         Some(("i", v)) => DataValue::Int(v.parse().unwrap_or(0)),
         Some(("s", v)) => DataValue::String(v.to_string()),
         Some(("b", v)) => DataValue::Bool(v == "1"),
         Some(("f", v)) => DataValue::Float(v.parse::<i64>().unwrap_or(0) as f64 / 4.0),
-        Some(("d", v)) => DataValue::Datetime(DateTime::from_timestamp(v.parse().unwrap_or(0), 0).unwrap().fixed_offset()),
+        Some(("d", v)) => DataValue::Datetime(DateTime::from_timestamp_millis(v.parse().unwrap_or(0)).unwrap().fixed_offset()),
         Some(("l", v)) => DataValue::List(v.split('|').filter(|x| !x.is_empty()).map(parse_value).collect()),
         _ => DataValue::Null,
     }
@@ -42,7 +64,7 @@ pub fn show_value(v: &DataValue) -> String {
         DataValue::Bool(b) => format!("b:{}", *b as u8),
         DataValue::Null => "n".into(),
         DataValue::Float(f) => format!("f:{}", (*f * 4.0) as i64),
-        DataValue::Datetime(d) => format!("d:{}", d.timestamp()),
+        DataValue::Datetime(d) => format!("d:{}", d.timestamp_millis()),
         DataValue::List(l) => format!("l:{}", l.iter().map(show_value).collect::<Vec<_>>().join("|")),
     }
 }
@@ -823,8 +845,17 @@ impl Gen {
             let dup = subs[0].clone();
             subs.push(dup); // the same item twice
         }
-        if self.rng.chance(4) {
-            subs.push("M[R:r0]".into()); // nested complex selector: must be refused
+        if self.rng.chance(5) {
+            // nested complex selector: must be refused, and refused before anything of it is resolved
+            let nested = if self.rng.chance(40) || self.res.is_empty() { "M[R:r0]".to_string() } else {
+                let (r, n) = self.rng.pick(&self.res).clone();
+                let k = *self.rng.pick(&['M', 'C', 'X']);
+                let x = self.rng.below(n.max(1));
+                let y = (x + 1 + self.rng.below(3)).min(n);
+                let z = (y + self.rng.below(2)).min(n);
+                format!("{}[T:{}:b{}:b{}|T:{}:b{}:b{}]", k, r, x, y, r, z, (z + 1).min(n))
+            };
+            if self.rng.chance(50) { subs.push(nested) } else { subs.insert(0, nested) }
         }
         format!("{}[{}]", kind, subs.join(";"))
     }
@@ -844,7 +875,7 @@ impl Gen {
             2 => "n".to_string(),
             3 => format!("b:{}", self.rng.below(2)),
             4 => format!("f:{}", self.rng.range(-9, 9)),
-            5 => format!("d:{}", 1_600_000_000 + self.rng.below(1000) as i64),
+            5 => format!("d:{}", 1_600_000_000_000i64 + (self.rng.below(4) * 250 + self.rng.below(3) * 1000) as i64),
             6 => format!("l:i:{}|s:v{}|f:{}", self.rng.below(3), self.rng.below(3), self.rng.below(8)),
             7 => format!("s:{}", ["\u{e9}t\u{e9}", "\u{1F600}", "q\"uote", "back\\slash", "semi;colon", "comma,x", "tab\tx"][self.rng.below(7)].replace(' ', "_")),
             8 => format!("i:{}", -(self.rng.below(1000) as i64)),
@@ -889,7 +920,7 @@ impl Gen {
                 if !self.anns.is_empty() && self.rng.chance(6) { self.rng.pick(&self.anns).clone() } else { format!("a{}", self.nann) }
             } else { "~".into() };
             let target = self.target();
-            let nd = match self.rng.below(10) { 0..=2 => 0, 3..=7 => 1, _ => 2 };
+            let nd = match self.rng.below(12) { 0..=2 => 0, 3..=7 => 1, 8..=9 => 2, 10 => 3, _ => 4 };
             let data: Vec<String> = (0..nd).map(|_| self.data()).collect();
             if id != "~" && !id.starts_with('#') && !self.anns.contains(&id) { self.anns.push(id.clone()); }
             self.nann += 1;
@@ -1067,7 +1098,7 @@ fn run_script(rep: &mut Report, script: &[String], property: Option<&str>) -> Ve
         if want("C14") && out == "err" && before_obs != after_obs {
             let what = diff_kind(&before_obs, &after_obs);
             let c = if cls.starts_with("annot") { "annotate" } else { cls.as_str() };
-            rep.fail("oracle", &format!("C14/{}/{}", c, what), ctx(), &before_obs, &after_obs);
+            rep.fail("oracle", &format!("C14/{}/{}/{}", c, what, last_err()), ctx(), &before_obs, &after_obs);
         }
         // C02: removal removes exactly the documented dependants and always succeeds on existing items
         if let Some((closure, modified)) = &expected_rm {
